@@ -98,6 +98,9 @@ theorem kwContains_absent (h : n.contains = none) : Spec.kwContains sub n j = so
   unfold Spec.kwContains
   cases j <;> simp [h]
 
+theorem kwContains_vocab_absent (d : Draft) (h : n.contains = none) :
+    Spec.kwContains sub (Spec.vocab d n) j = some (some {}) := kwContains_absent sub (Spec.vocab d n) j h
+
 theorem filterMap_none {α β : Type} (l : List α) : l.filterMap (fun _ => (none : Option β)) = [] := by
   induction l <;> simp_all
 
@@ -185,6 +188,10 @@ structure NoUneval (n : Node) : Prop where
   items : n.unevaluatedItems = none
   props : n.unevaluatedProperties = none
 
+/-- blanking the keywords of later drafts keeps that -/
+theorem NoUneval.vocab {n : Node} (h : NoUneval n) (d : Draft) : NoUneval (Spec.vocab d n) :=
+  ⟨by simp [Spec.vocab, h.items], by simp [Spec.vocab, h.props]⟩
+
 theorem assertsOf_absent (env : Spec.Env) (n : Node) (j : Json) (h : NoAsserts n) : assertsOf env n j = true := by
   unfold assertsOf
   rw [typeOk_absent n j h.type h.types, enumOk_absent n j h.enum, constOk_absent n j h.const,
@@ -242,10 +249,10 @@ theorem specBody_plain (env : Spec.Env) (rec : Spec.Rec) (scope : List NodeId) (
   unfold specBody seqConj
   rw [h7]
   simp only [Bool.false_eq_true, if_false]
-  have e1 : Spec.kwUnevaluatedItems (rec (scope ++ [s])) n j = fun _ => some (some {}) :=
-    funext fun ev => kwUnevaluatedItems_absent _ n j ev hu.items
-  have e2 : Spec.kwUnevaluatedProps (rec (scope ++ [s])) n j = fun _ => some (some {}) :=
-    funext fun ev => kwUnevaluatedProps_absent _ n j ev hu.props
+  have e1 : Spec.kwUnevaluatedItems (rec (scope ++ [s])) (Spec.vocab env.draft n) j = fun _ => some (some {}) :=
+    funext fun ev => kwUnevaluatedItems_absent _ _ j ev (hu.vocab _).items
+  have e2 : Spec.kwUnevaluatedProps (rec (scope ++ [s])) (Spec.vocab env.draft n) j = fun _ => some (some {}) :=
+    funext fun ev => kwUnevaluatedProps_absent _ _ j ev (hu.vocab _).props
   rw [e1, e2, assertsOf_absent env n j ha]
   cases Spec.sequence (kwList env rec scope s j n) with
   | none => rfl
@@ -261,7 +268,7 @@ theorem specBody_plain (env : Spec.Env) (rec : Spec.Rec) (scope : List NodeId) (
 macro "plain_node" : tactic => `(tactic| (
   rw [specBody_plain _ _ _ _ _ _ (by constructor <;> rfl) (by constructor <;> rfl) (by simp)]
   simp [kwList, kwRef_absent, kwDynamicRef_absent, kwAllOf_absent, kwAnyOf_absent, kwOneOf_absent, kwNot_absent,
-    kwIf_absent, kwItems_absent, kwContains_absent, kwProps_absent, kwPropertyNames_absent, kwDependentSchemas_absent]))
+    kwIf_absent, kwItems_absent, kwContains_absent, kwContains_vocab_absent, kwProps_absent, kwPropertyNames_absent, kwDependentSchemas_absent]))
 
 section
 variable (env : Spec.Env) (rec : Spec.Rec) (scope : List NodeId) (s : NodeId) (j : Json)
@@ -293,7 +300,7 @@ theorem specBody_ref (r : String) (hd : env.draft = .d2020) :
     specBody env rec scope s j { ref := r } = Spec.kwRef env (rec (scope ++ [s])) s { ref := r } j := by
   rw [specBody_plain _ _ _ _ _ _ (by constructor <;> rfl) (by constructor <;> rfl) (by simp [hd])]
   simp [kwList, kwDynamicRef_absent, kwAllOf_absent, kwAnyOf_absent, kwOneOf_absent, kwNot_absent,
-    kwIf_absent, kwItems_absent, kwContains_absent, kwProps_absent, kwPropertyNames_absent, kwDependentSchemas_absent]
+    kwIf_absent, kwItems_absent, kwContains_absent, kwContains_vocab_absent, kwProps_absent, kwPropertyNames_absent, kwDependentSchemas_absent]
 
 theorem specBody_props (ps pp : Option (List (String × NodeId))) (ap : Option NodeId) :
     specBody env rec scope s j { properties := ps, patternProperties := pp, additionalProperties := ap }
@@ -432,15 +439,15 @@ theorem specBody_assertion_node (env : Spec.Env) (rec : Spec.Rec) (scope : List 
   have h7 : (env.draft == .d7 && n.ref != "") = false := by simp [hn.ref]
   rw [h7]
   simp only [Bool.false_eq_true, if_false]
-  have e1 : Spec.kwUnevaluatedItems (rec (scope ++ [s])) n j = fun _ => some (some {}) :=
-    funext fun ev => kwUnevaluatedItems_absent _ n j ev hu.items
-  have e2 : Spec.kwUnevaluatedProps (rec (scope ++ [s])) n j = fun _ => some (some {}) :=
-    funext fun ev => kwUnevaluatedProps_absent _ n j ev hu.props
+  have e1 : Spec.kwUnevaluatedItems (rec (scope ++ [s])) (Spec.vocab env.draft n) j = fun _ => some (some {}) :=
+    funext fun ev => kwUnevaluatedItems_absent _ _ j ev (hu.vocab _).items
+  have e2 : Spec.kwUnevaluatedProps (rec (scope ++ [s])) (Spec.vocab env.draft n) j = fun _ => some (some {}) :=
+    funext fun ev => kwUnevaluatedProps_absent _ _ j ev (hu.vocab _).props
   have hl : Spec.sequence (kwList env rec scope s j n) = some (List.replicate 12 (some {})) := by
     simp [kwList, kwRef_absent _ _ n j s hn.ref, kwDynamicRef_absent _ _ n j _ s hn.dynamicRef,
       kwAllOf_absent _ n j hn.allOf, kwAnyOf_absent _ n j hn.anyOf, kwOneOf_absent _ n j hn.oneOf,
       kwNot_absent _ n j hn.not, kwIf_absent _ n j hn.if_, kwItems_absent _ _ n j hn.prefixItems hn.items hn.itemsArray,
-      kwContains_absent _ n j hn.contains,
+      kwContains_absent _ (Spec.vocab env.draft n) j hn.contains,
       kwProps_absent _ _ n j hn.properties hn.patternProperties hn.additionalProperties,
       kwPropertyNames_absent _ n j hn.propertyNames,
       kwDependentSchemas_absent _ _ n j hn.dependencySchemas hn.dependentSchemas, Spec.sequence, List.replicate]
